@@ -45,6 +45,11 @@ CHECKS["C16"] = ("model_checking",
   "Every circuit value of the bounded space is passed to the real validate(); whenever it accepts, the real eval() is run on every input of the declared shape and must not panic and must return one bit per output, and the harness's own definedness-tracking reading must find no read of a non-existent or undefined wire/register/input. The second clause (compiler and conversion output validates) is checked on every compiled program of the families and every converted circuit of C10.",
   "Bounds: SSA <= 2-3 gates, register <= 2-3 instructions over small register/party alphabets.", "DESIGN.md §4 C16")
 
+CHECKS["C08"] = ("exploration",
+  "exhaustive enumeration of all arm lists up to length L over per-type pattern alphabets x the whole scrutinee domain (or one representative per end-point-induced region) vs. a brute-force matcher; witnesses of rejected matches validated value by value",
+  "For 12 scrutinee types (bool, u8, i8, u16, i32, u64, enum, tuples, struct, nested) every list of up to L arms over an alphabet of identifier / literal / inclusive / exclusive range / enum / tuple / struct(.. , reordered) patterns is type-checked by the real checker; the verdict must equal 'every domain value matches some arm'; accepted matches are compiled and evaluated on every domain value (first matching arm and its binding); every reported missing case must match at least one value and no value that an arm matches.",
+  "Alphabet and list-length bounds; wide integers are covered by region representatives (complete for interval patterns).", "DESIGN.md §4 C08")
+
 NOT_YET = {
 }
 
